@@ -89,6 +89,7 @@ struct WorldCfg {
     bool with_units = true;
     bool with_control = true;
     bool with_error_cb = true;
+    bool with_flush = true;
 };
 
 using Handler = std::function<scpi_result_t(World &)>;
